@@ -1,0 +1,46 @@
+// SPDX-License-Identifier: Apache-2.0
+//! Verification hooks. Compiled only with `--cfg micro_http_verif`; off by default.
+//!
+//! A thread-local sink of events emitted at the linearization points of the server
+//! (batch returned by `epoll_wait`, descriptor chosen by `accept`, descriptors removed
+//! by the sweep, `epoll_ctl` calls) and of the connection (result of each `write`).
+//! Events are JSON objects rendered as strings; nothing here changes behaviour.
+
+use std::cell::RefCell;
+
+thread_local! {
+    static EVENTS: RefCell<Vec<String>> = const { RefCell::new(Vec::new()) };
+}
+
+/// Appends one event to the calling thread's sink.
+pub fn emit(event: String) {
+    EVENTS.with(|e| e.borrow_mut().push(event));
+}
+
+/// Removes and returns all events emitted on the calling thread so far.
+pub fn drain() -> Vec<String> {
+    EVENTS.with(|e| std::mem::take(&mut *e.borrow_mut()))
+}
+
+/// Read-only digest of a connection's parser state (diagnostic only).
+#[derive(Clone, Debug, PartialEq, Eq)]
+pub struct ConnDigest {
+    /// Parser phase: 0 request line, 1 headers, 2 body, 3 ready.
+    pub phase: u8,
+    /// Bytes of an incomplete line carried at the start of the window.
+    pub read_cursor: usize,
+    /// Body bytes still awaited.
+    pub body_missing: u32,
+    /// Body bytes held.
+    pub body_held: usize,
+    /// Completed requests not yet popped.
+    pub parsed: usize,
+    /// Responses queued and not yet serialized.
+    pub queued: usize,
+    /// Unsent bytes of the response being written.
+    pub unsent: usize,
+    /// Descriptors received and not yet attached.
+    pub files: usize,
+    /// Whether a request is under construction.
+    pub pending: bool,
+}
